@@ -6,7 +6,7 @@ Monitor: classification of the outcome of every load_program()/step() call at th
 import random
 import signal
 
-from ..common import rng_for, h64, make_riscv, install_program, set_regs, preload_mem, M32
+from ..common import guarded, rng_for, h64, make_riscv, install_program, set_regs, preload_mem, M32
 from ..refmodels.rv32 import SeqRef, Fault
 from ..refmodels.timed5 import TimedRef
 from ..gen import asm_rv as A
@@ -281,7 +281,7 @@ def run_shard(spec, res):
     k = spec["kind"]
     if k == "directed":
         for sim, text, kinds in directed_texts():
-            run_case("C15", {"kind": "text", "sim": sim, "text": text, "faults": kinds}, res)
+            guarded(run_case, "C15", {"kind": "text", "sim": sim, "text": text, "faults": kinds}, res)
             res.evaluations += 1
             res.count("rv_texts" if sim == "rv" else "toy_texts")
             if "hostile-literal" in kinds:
@@ -324,7 +324,7 @@ def run_shard(spec, res):
                 case["dcache"] = rand_cfg(rng, small=True)
         if "hostile-literal" in case.get("faults", []):
             res.count("hostile_literals_injected")
-        run_case("C15", case, res)
+        guarded(run_case, "C15", case, res)
         res.evaluations += 1
         if it < 2:
             res.sample(case, 6)
